@@ -773,7 +773,11 @@ class ChunkParser:
             handed off to the parent's flag attributes.
         :return: ``None``
         """
-        self.parse_chunk()
+        handed_off = self.parse_chunk()
+        if handed_off:
+            # A replacement ChunkParser has already generated the flags
+            # for this chunk and handed everything to the parent.
+            return None
         self.gen_flags_chunk()
         parent = self.parent
         parent.w_flags.extend(self.w_flags)
@@ -840,6 +844,7 @@ class ChunkParser:
             )
             for attr in replacement_attributes:
                 setattr(self, attr, getattr(replacement, attr))
+            return True
         return None
 
     def find_matches(self, text, layout):
